@@ -963,7 +963,19 @@ func relativeDiskCases(r *Run, g *Rng, lw *liveWorld, w *world, worldName string
 		}
 		p := rel()
 		desc := map[string]interface{}{"kind": "disk-relative", "cwd": strings.Join(cwdDir, "/"), "p": p}
-		switch g.Intn(4) {
+		switch g.Intn(5) {
+		case 4:
+			var ev string
+			cls, _ := protect(func() error {
+				var err error
+				ev, err = filepath.EvalSymlinks(p)
+				return err
+			})
+			if cls != ClsOk {
+				ev = ""
+			}
+			r.AddCase(fmt.Sprintf("(K_evalsym %s %s %s %s)", fsTerm, coqStr(p), cls, coqStr(ev)), desc, cls == ClsOk)
+			r.Count("rel_evalsymlinks_disk", cls)
 		case 0:
 			var d filesys.ConfirmedDir
 			var f string
@@ -1045,6 +1057,180 @@ func genRelRef(g *Rng) string {
 // follows it; New on the in-memory FS from "/" etc. is covered by the same code.
 func chainOracleRandom(r *Run, lw *liveWorld, c chainCase, o chainObs, desc interface{}) {
 	chainOracle(r, lw, c, o, desc)
+}
+
+// ---------- the recursion over bases: krusty.Run on kustomizations that only list directories ----------
+
+// visitCases: random directory trees in which every directory holds a kustomization listing 0-2 directory
+// references (children, siblings, parents, itself, through links, missing).  The build reads the
+// kustomization file of every root it visits, in order: that sequence and the outcome class are compared
+// with the model (visit_trace with [bases] read off the tree).
+func visitCases(r *Run, rng *Rng, kind string, n int, diskParent string, defs *strings.Builder) error {
+	names := []string{"va", "vb", "vc", "vd"}
+	for it := 0; it < n; it++ {
+		g := rng.Fork()
+		var prefix []string
+		base := ""
+		if kind == "disk" {
+			var err error
+			base, prefix, err = newDiskBase(diskParent)
+			if err != nil {
+				return err
+			}
+		}
+		absPrefix := ""
+		if len(prefix) > 0 {
+			absPrefix = absOf(prefix)
+		}
+		// directories
+		tree := newDir()
+		var dirs [][]string
+		var grow func(d *vnode, here []string, depth int)
+		grow = func(d *vnode, here []string, depth int) {
+			dirs = append(dirs, here)
+			if depth == 0 {
+				return
+			}
+			for _, nm := range names[:1+g.Intn(3)] {
+				if len(dirs) >= 7 || g.Chance(35) {
+					continue
+				}
+				grow(d.put(nm, newDir()), append(append([]string{}, here...), nm), depth-1)
+			}
+		}
+		top := tree.put("top", newDir())
+		grow(top, []string{"top"}, 2)
+		if g.Chance(60) {
+			sib := tree.put("sib", newDir())
+			grow(sib, []string{"sib"}, 1)
+		}
+		// links to directories (disk)
+		if kind == "disk" {
+			for k := 0; k < g.Intn(3); k++ {
+				from := dirs[g.Intn(len(dirs))]
+				to := dirs[g.Intn(len(dirs))]
+				nm := fmt.Sprintf("vl%d", k)
+				if tree.at(from).child(nm) == nil {
+					t := relPath(from, to)
+					if g.Chance(30) {
+						t = absPrefix + "/" + strings.Join(to, "/")
+					}
+					tree.at(from).put(nm, &vnode{kind: vLink, target: t})
+				}
+			}
+		}
+		// resource files (withFiles: the build also reads resources; compared with load_tree)
+		withFiles := it%2 == 1
+		if withFiles {
+			for _, d := range dirs {
+				tree.at(d).put("vr.yaml", &vnode{kind: vFile, content: fmt.Sprintf("apiVersion: v1\nkind: ConfigMap\nmetadata:\n  name: r-%s\n", strings.Join(d, "-"))})
+			}
+		}
+		var kustTerms []string
+		// kustomizations
+		var basesTerm []string
+		basesDesc := map[string][]string{}
+		for _, d := range dirs {
+			nrefs := g.Intn(3)
+			if len(d) == 1 && d[0] == "top" && nrefs == 0 {
+				nrefs = 1
+			}
+			var refs []string
+			for k := 0; k < nrefs; k++ {
+				var ref string
+				switch g.Intn(10) {
+				case 0:
+					ref = g.Pick([]string{".", "..", "../..", "vmissing", "./va/.."})
+				case 1, 2:
+					// through an entry of this directory (a link, if there is one)
+					ent := tree.at(d).names
+					if len(ent) > 0 {
+						ref = ent[g.Intn(len(ent))]
+					} else {
+						ref = "va"
+					}
+				default:
+					ref = relPath(d, dirs[g.Intn(len(dirs))])
+					if g.Chance(15) {
+						ref = perturb(g, ref)
+					}
+				}
+				if withFiles && g.Chance(45) {
+					// a resource file: mostly the directory's own, sometimes another directory's (outside the root: refused)
+					if g.Chance(70) {
+						ref = "vr.yaml"
+					} else {
+						ref = relPath(d, append(append([]string{}, dirs[g.Intn(len(dirs))]...), "vr.yaml"))
+					}
+				}
+				if ref == "" || strings.HasPrefix(ref, "/") || isNetworkish(ref) || ref == "kustomization.yaml" {
+					ref = "."
+				}
+				refs = append(refs, ref)
+			}
+			var b strings.Builder
+			b.WriteString("namePrefix: p-\n")
+			if len(refs) > 0 {
+				b.WriteString("resources:\n")
+				for _, ref := range refs {
+					b.WriteString("- " + q(ref) + "\n")
+				}
+			}
+			tree.at(d).put("kustomization.yaml", &vnode{kind: vFile, content: b.String()})
+			kustTerms = append(kustTerms, fmt.Sprintf("(%s, %s)", coqStr(b.String()), coqStrList(refs)))
+			root := absPrefix + "/" + strings.Join(d, "/")
+			basesTerm = append(basesTerm, fmt.Sprintf("(%s, %s)", coqStr(root), coqStrList(refs)))
+			basesDesc[strings.Join(d, "/")] = refs
+		}
+		w := &world{tree: tree, prefix: prefix, links: kind == "disk"}
+		lw, err := materialise(w, kind, base)
+		if err != nil {
+			return err
+		}
+		name := fmt.Sprintf("vw_%s_%d", kind, it)
+		var fsTerm string
+		if kind == "mem" {
+			fmt.Fprintf(defs, "Definition %s : mnode := %s.\n", name, w.full().coqMem())
+			fsTerm = "(VMem " + name + ")"
+		} else {
+			fmt.Fprintf(defs, "Definition %s : dnode := %s.\n", name, w.full().coqDisk())
+			fsTerm = "(VDisk " + name + ")"
+		}
+		ov := &ovFS{FileSystem: lw.fs, over: map[string]string{}}
+		target := absPrefix + "/top"
+		o := runWithTimeout(ov, target)
+		var trace []string
+		for _, p := range ov.reads {
+			if filepath.Base(p) == "kustomization.yaml" {
+				trace = append(trace, filepath.Dir(p))
+			}
+		}
+		desc := map[string]interface{}{"kind": "visit", "fs": kind, "bases": basesDesc, "class": o.cls, "trace": trace}
+		if o.cls == ClsDiverge {
+			r.Violation(OracleViolation{Law: "terminates", Class: "C05/diverge/bases", Detail: "a build over bases did not return", Replay: desc})
+			return nil
+		}
+		if o.cls == ClsPanic {
+			r.Violation(OracleViolation{Law: "no_panic", Class: "C05/panic/bases", Detail: o.msg, Replay: desc})
+		}
+		if withFiles {
+			// the same resource read twice is an id conflict of the build, which the loading model does not know
+			if strings.Contains(o.msg, "already registered id") || strings.Contains(o.msg, "conflict") {
+				r.Meta.Skipped++
+				continue
+			}
+			reads := ov.reads
+			if o.cls != ClsOk {
+				reads = nil
+			}
+			r.AddCase(fmt.Sprintf("(K_build %s %s [%s] %s %s)", fsTerm, coqStr(target), strings.Join(kustTerms, "; "), o.cls, coqStrList(reads)), desc, o.cls == ClsOk && len(reads) > 1)
+			r.Count("buildreads_"+kind, fmt.Sprintf("%s/%d", o.cls, len(reads)))
+			continue
+		}
+		r.AddCase(fmt.Sprintf("(K_visit %s %s [%s] %s %s)", fsTerm, coqStr(target), strings.Join(basesTerm, "; "), o.cls, coqStrList(trace)), desc, o.cls == ClsOk && len(trace) > 1)
+		r.Count("visit_"+kind, fmt.Sprintf("%s/%d", o.cls, len(trace)))
+	}
+	return nil
 }
 
 // ---------- crafted disk worlds: link-count limits ----------
@@ -1230,6 +1416,16 @@ func runC05(r *Run, rng *Rng, tier string) error {
 		return err
 	}
 	if err := linkChainCases(r, diskParent, &defs); err != nil {
+		return err
+	}
+	nVisit := 100
+	if tier == "thorough" {
+		nVisit = 1500
+	}
+	if err := visitCases(r, rng.Fork(), "mem", nVisit, diskParent, &defs); err != nil {
+		return err
+	}
+	if err := visitCases(r, rng.Fork(), "disk", nVisit, diskParent, &defs); err != nil {
 		return err
 	}
 	r.header += compileWorlds(r.OutDir, defs.String())
